@@ -234,6 +234,10 @@ theorem overflow_witness :
 
 /-! ## the regenerated facts -/
 
+/-- `n & 7 = n % 8`: the one bit-level fact behind the chunk boundaries (`n &^ 7` is printed as `n - (n &&& 7)`). -/
+private theorem and7 (n : Nat) : n &&& 7 = n % 8 := by
+  rw [show (7 : Nat) = 2 ^ 3 - 1 from rfl, Nat.and_two_pow_sub_one_eq_mod]
+
 /-- **C20_current.**  The facts regenerated from `mbits/mbits.go` and `mstr/mstr.go` (`Gen.Small`, written
 by `extract/small.go` on every run) are the pinned ones, and the extractor recognised the statement
 skeleton of `Zero`, `LeadingZeroes`, `TrailingZeroes`, `Trunc`, `isDigit`, `parseInt`, `parseStr` and
@@ -241,27 +245,29 @@ skeleton of `Zero`, `LeadingZeroes`, `TrailingZeroes`, `Trunc`, `isDigit`, `pars
 `n-8` start and the `i+7` of `TrailingZeroes`; `Trunc`'s `n >= len(s)`, its `n > 0` guards, `n-1` indices
 and the masks `&0xc0 == 0x80` / `&0xc0 == 0xc0`; the digit bounds `'0'..'9'`, the `'0'` and `v*10 + d` of
 `parseInt` and its `i > 0`.  `Model.Mbits`/`Model.Mstr` are built from these definitions, so the theorems
-above are about the constants that are in the source now; a one-token change in any of them changes
-`Gen/Small.lean`, and this theorem (and the `*_succ`/`*_def` lemmas through which the proofs unfold the
-models) no longer compile.  (`n &^ 7` is printed as `n - (n &&& 7)`.) -/
+above are about the constants that are in the source now.  The arithmetic facts are stated by VALUE and proved
+by computation (`gen_fact`; the chunk boundaries as `n - n % 8` / `n % 8`, so `n - n&^7` and `n & 7` both
+qualify): a one-token change that changes a value breaks this theorem (and the `*_succ`/`*_def` lemmas through
+which the proofs unfold the models), a neutral respelling does not.  The byte tests of `Trunc`/`isDigit` on
+`UInt8` are still pinned by their form (`rfl`).  (`n &^ 7` is printed as `n - (n &&& 7)`.) -/
 theorem C20_current :
     MdsVerif.Gen.Small.recognised = true ∧
     -- mbits.Zero
-    (∀ n, Gen.Small.zeroChunkEnd n = n - (n &&& 7)) ∧
-    (∀ i m, Gen.Small.zeroWordCond i m = decide (i < m)) ∧ Gen.Small.zeroStride = 8 ∧
-    (∀ i n, Gen.Small.zeroTailCond i n = decide (i < n)) ∧
+    (∀ n, Gen.Small.zeroChunkEnd n = n - n % 8) ∧
+    (∀ (i : Nat) (m : Nat), Gen.Small.zeroWordCond i m = decide (i < m)) ∧ Gen.Small.zeroStride = 8 ∧
+    (∀ (i : Nat) (n : Nat), Gen.Small.zeroTailCond i n = decide (i < n)) ∧
     -- mbits.LeadingZeroes
-    (∀ n, Gen.Small.lzChunkEnd n = n - (n &&& 7)) ∧
-    (∀ i m, Gen.Small.lzWordCond i m = decide (i < m)) ∧ Gen.Small.lzStride = 8 ∧
-    (∀ i n, Gen.Small.lzTailCond i n = decide (i < n)) ∧
+    (∀ n, Gen.Small.lzChunkEnd n = n - n % 8) ∧
+    (∀ (i : Nat) (m : Nat), Gen.Small.lzWordCond i m = decide (i < m)) ∧ Gen.Small.lzStride = 8 ∧
+    (∀ (i : Nat) (n : Nat), Gen.Small.lzTailCond i n = decide (i < n)) ∧
     -- mbits.TrailingZeroes
-    (∀ n, Gen.Small.tzRagged n = n - (n - (n &&& 7))) ∧
-    (∀ n, Gen.Small.tzStart n = n - 8) ∧
+    (∀ n, Gen.Small.tzRagged n = n % 8) ∧
+    (∀ (n : Nat), Gen.Small.tzStart n = n - 8) ∧
     (∀ i m, Gen.Small.tzWordCond i m = decide (i ≥ m)) ∧ Gen.Small.tzStride = 8 ∧
     (∀ i, Gen.Small.tzWordLast i = i + 7) ∧ Gen.Small.tzCountInc = 8 ∧
     (∀ m, Gen.Small.tzTailCond m = decide (m ≥ 0)) ∧
     -- mstr.Trunc
-    (∀ n len, Gen.Small.truncWhole n len = decide (n ≥ len)) ∧
+    (∀ (n : Int) (len : Nat), Gen.Small.truncWhole n len = decide (n ≥ len)) ∧
     (∀ n, Gen.Small.truncContGuard n = decide (n > 0)) ∧ (∀ n, Gen.Small.truncContIdx n = n - 1) ∧
     (∀ b, Gen.Small.truncIsCont b = decide (b &&& 0xc0 = 0x80)) ∧
     (∀ n, Gen.Small.truncLeadGuard n = decide (n > 0)) ∧ (∀ n, Gen.Small.truncLeadIdx n = n - 1) ∧
@@ -270,11 +276,33 @@ theorem C20_current :
     (∀ b, Gen.Small.isDigit b = (decide (b ≥ 0x30) && decide (b ≤ 0x39))) ∧
     Gen.Small.digitZero = 0x30 ∧
     (∀ v d, Gen.Small.parseIntStep v d = v * 10 + d) ∧
-    (∀ i, Gen.Small.parseIntOk i = decide (i > 0)) :=
-  ⟨rfl, fun _ => rfl, fun _ _ => rfl, rfl, fun _ _ => rfl,
-   fun _ => rfl, fun _ _ => rfl, rfl, fun _ _ => rfl,
-   fun _ => rfl, fun _ => rfl, fun _ _ => rfl, rfl, fun _ => rfl, rfl, fun _ => rfl,
-   fun _ _ => rfl, fun _ => rfl, fun _ => rfl, fun _ => rfl, fun _ => rfl, fun _ => rfl, fun _ => rfl,
-   fun _ => rfl, rfl, fun _ _ => rfl, fun _ => rfl⟩
+    (∀ (i : Nat), Gen.Small.parseIntOk i = decide (i > 0)) :=
+  ⟨rfl,
+   by intro n; unfold Gen.Small.zeroChunkEnd; have := and7 n; have := Nat.and_le_left (n := n) (m := 7); omega,
+   by gen_fact Gen.Small.zeroWordCond,
+   by gen_fact Gen.Small.zeroStride,
+   by gen_fact Gen.Small.zeroTailCond,
+   by intro n; unfold Gen.Small.lzChunkEnd; have := and7 n; have := Nat.and_le_left (n := n) (m := 7); omega,
+   by gen_fact Gen.Small.lzWordCond,
+   by gen_fact Gen.Small.lzStride,
+   by gen_fact Gen.Small.lzTailCond,
+   by intro n; unfold Gen.Small.tzRagged; have := and7 n; have := Nat.and_le_left (n := n) (m := 7); omega,
+   by gen_fact Gen.Small.tzStart,
+   by gen_fact Gen.Small.tzWordCond,
+   by gen_fact Gen.Small.tzStride,
+   by gen_fact Gen.Small.tzWordLast,
+   by gen_fact Gen.Small.tzCountInc,
+   by gen_fact Gen.Small.tzTailCond,
+   by gen_fact Gen.Small.truncWhole,
+   by gen_fact Gen.Small.truncContGuard,
+   by gen_fact Gen.Small.truncContIdx,
+   by gen_fact Gen.Small.truncIsCont,
+   by gen_fact Gen.Small.truncLeadGuard,
+   by gen_fact Gen.Small.truncLeadIdx,
+   by gen_fact Gen.Small.truncIsLead,
+   by gen_fact Gen.Small.isDigit,
+   by gen_fact Gen.Small.digitZero,
+   by gen_fact Gen.Small.parseIntStep,
+   by gen_fact Gen.Small.parseIntOk⟩
 
 end MdsVerif.Props.C20
